@@ -40,3 +40,7 @@ func github.com/ipld/go-ipld-prime/datamodel.PathSegment.Equals
   params o
   modifies nothing
   ensures result == (self == o)
+# the textual form of a path: nothing assumed about it (two different paths may print with a common prefix)
+func github.com/ipld/go-ipld-prime/datamodel.Path.String
+  assumed
+  modifies nothing
